@@ -42,6 +42,14 @@ inductive LOp where
   | x (op : XOp)
   | qstart (k : Nat) (c : Cls)
   | qdrain (k : Nat)
+  /-- one `next()` of the evaluation `k`: the first one sweeps and starts the walk of the class lists; whatever the body
+  does before the next `qnext` / `qdrain` happens while the evaluation is SUSPENDED (an instance may die after the
+  evaluation's sweep and before its lazy walk reaches the wrapper) -/
+  | qnext (k : Nat)
+  /-- `(queryr c s)`: a RULE query with a conclusion (`Add(p, inference(Item)(a=x))`, `x = let(c, None)`), evaluated to
+  the end and dropped with everything it produced. For the registry an evaluation over `c` like any other. `sel` = the
+  selected variable is the INFERRED one (`inference(View)()`): finding F-C20-3, see `LSt.rulePins` -/
+  | ruleq (k : Nat) (c : Cls) (sel : Bool)
 
 structure LSt where
   st : DSt
@@ -52,11 +60,19 @@ structure LSt where
   dropped every instance of the body while the declared query objects are still held: a declared, not yet evaluated query
   has not ranged over anything and must pin nothing (maximum over the iterations) -/
   pin : Nat := 0
+  /-- driver-level quirk (F-C20-3, open): `QueryObjectDescriptor.variable_is_bound_or_its_children_are_bound` is an
+  `lru_cache` on a method — the process-wide cache keys on the query descriptor (its whole expression tree) and on every
+  `OperationResult` (the bindings: the instances the evaluation ranged over). It is consulted when a SELECTED variable is
+  an inferred one and the conditions had at least one solution. In the model's own terms: the query object of such an
+  evaluation is never dropped (its cached domain stays a root). Off = `fixes/C20_conclusion_cache.diff`. -/
+  rulePins : Bool := false
 
 def shiftL (d : Nat) : LOp → LOp
   | .x op => .x (shiftX d op)
   | .qstart k c => .qstart (k + d) c
   | .qdrain k => .qdrain (k + d)
+  | .qnext k => .qnext (k + d)
+  | .ruleq k c s => .ruleq (k + d) c s
 
 def drain (q : Quirks) (st : DSt) (it : Iter) : Nat → DSt × Iter
   | 0 => (st, it)
@@ -84,8 +100,24 @@ def stepL (q : Quirks) (r : LSt) : LOp → LSt
     | some it =>
       if r.st.err then r else
       let (st, it') := drain q r.st it (r.st.g.nodes.length + 3)
-      probeL { r with st := st, iters := r.iters.map (fun x => if x.key == k then it' else x),
-                      raised := r.raised || it'.status == 2 }
+      let r' := { r with st := st, iters := r.iters.map (fun x => if x.key == k then it' else x),
+                         raised := r.raised || it'.status == 2 }
+      -- an evaluation that was suspended before may leave wrappers of instances that died meanwhile (until the next
+      -- sweep): the dead wrappers are counted only when the drain ran the evaluation from its start
+      if it.started then r' else probeL r'
+  | .qnext k =>
+    match r.iters.find? (fun it => it.key == k) with
+    | none => r
+    | some it =>
+      if r.st.err then r else
+      let (st, it') := advance q false true schema schema r.st it
+      { r with st := st, iters := r.iters.map (fun x => if x.key == k then it' else x),
+               raised := r.raised || it'.status == 2 }
+  | .ruleq k c sel =>
+    if r.st.err then r else
+    let st := stepD q (stepD q r.st (.mkq k c none)) (.evalq k)
+    let solved := st.h.qvars.any (fun v => v.key == k && !(v.cache.getD []).isEmpty)
+    if sel && r.rulePins && solved then { r with st := st } else { r with st := stepD q st (.dropq k) }
 
 def runL (q : Quirks) (r : LSt) (ops : List LOp) : LSt := ops.foldl (stepL q) r
 
@@ -96,6 +128,17 @@ def parseL (xs : List Sexp) : Option (List LOp) :=
       let a ← match x with
         | .list [.atom "qstart", k, c] => do pure [LOp.qstart (← k.asNat?) (← c.asNat?)]
         | .list [.atom "qdrain", k] => do pure [LOp.qdrain (← k.asNat?)]
+        | .list [.atom "qnext", k] => do pure [LOp.qnext (← k.asNat?)]
+        | .list [.atom "queryr", c, s] => do pure [LOp.ruleq (200000 + pos) (← c.asNat?) ((← s.asNat?) != 0)]
+        -- a query whose condition is a user-defined predicate (plain / flagged `is_expensive` / a symbolic function) over
+        -- two variables of class `c`: for the registry an evaluation over `c` like any other
+        | .list [.atom "queryp", c, _] => do
+            let c ← c.asNat?
+            pure ([Op.mkq (100000 + pos) c none, .evalq (100000 + pos), .dropq (100000 + pos)].map (LOp.x ∘ XOp.m))
+        | .list (.atom "querypd" :: c :: _ :: dom) => do
+            let c ← c.asNat?
+            pure ([Op.mkq (100000 + pos) c (some (← dom.mapM Sexp.asNat?)), .evalq (100000 + pos),
+              .dropq (100000 + pos)].map (LOp.x ∘ XOp.m))
         | _ => do pure ((← parseXOne pos x).map LOp.x)
       let b ← go (pos + 1) r
       pure (a ++ b)
@@ -109,6 +152,15 @@ def cleanup (body : List LOp) : List LOp :=
     | .x (XOp.newholder o _) => some (Op.drop o) | .x (XOp.clone o _ _) => some (Op.drop o)
     | .x (XOp.adopt o _ _) => some (Op.drop o) | _ => none)
   (dq ++ dr ++ [Op.sweep]).map (fun o => LOp.x (XOp.m o))
+
+/-- the operation runs (part of) an evaluation -/
+def evaluates : LOp → Bool
+  | .x (.m (.evalq _)) => true
+  | .qstart .. => true
+  | .qdrain _ => true
+  | .qnext _ => true
+  | .ruleq .. => true
+  | _ => false
 
 structure Sizes where
   nodes : Nat
@@ -129,7 +181,7 @@ def relStale (st : DSt) : Bool :=
 
 /-- run the loop; returns the final state, the sizes after every iteration, and the instances that were
 registered and died in the LAST clean-up (their `_instance_index` entries cannot have been overwritten) -/
-def runLoop (q : Quirks) (n : Nat) (pre body : List LOp) : LSt × List Sizes × Bool × Bool :=
+def runLoop (q : Quirks) (n : Nat) (pre body : List LOp) (rulePins : Bool := false) : LSt × List Sizes × Bool × Bool :=
   let rec go (i : Nat) (fuel : Nat) (r : LSt) (acc : List Sizes) (diedLast diedEver : Bool) :
       LSt × List Sizes × Bool × Bool :=
     match fuel with
@@ -141,7 +193,7 @@ def runLoop (q : Quirks) (n : Nat) (pre body : List LOp) : LSt × List Sizes × 
       -- a body that declares queries without evaluating any: the instances are dropped FIRST, and what is still alive while
       -- the declared queries are held is counted (`pin`); every other body is cleaned up as before (queries first)
       let declOnly := b.any (fun op => match op with | .x (.m (.mkq ..)) => true | _ => false) &&
-        !b.any (fun op => match op with | .x (.m (.evalq _)) => true | .qstart .. => true | .qdrain _ => true | _ => false)
+        !b.any evaluates
       let created := b.filterMap fun op => match op with
         | .x (.m (.new o _ _)) => some o | .x (.m (.newrole o _ _ _)) => some o | .x (.newholder o _) => some o
         | .x (.clone o _ _) => some o | .x (.adopt o _ _) => some o | _ => none
@@ -155,10 +207,10 @@ def runLoop (q : Quirks) (n : Nat) (pre body : List LOp) : LSt × List Sizes × 
             | .x (.clone o _ _) => some o | .x (.adopt o _ _) => some o | _ => none)).any
         (fun o => !r2.st.h.isLive o)
       go (i + 1) fuel r2 (acc ++ [sizes r2.st]) died (diedEver || diedBody)
-  go 0 n (runL q { st := St.init lifo } pre) [] false false
+  go 0 n (runL q { st := St.init lifo, rulePins := rulePins } pre) [] false false
 
-def obs (q : Quirks) (n : Nat) (pre body : List LOp) : String :=
-  let (r, ss, diedLast, diedEver) := runLoop q n pre body
+def obs (q : Quirks) (n : Nat) (pre body : List LOp) (rulePins : Bool := false) : String :=
+  let (r, ss, diedLast, diedEver) := runLoop q n pre body rulePins
   let st := r.st
   if st.err then "exc" else
   let surv := sortNat (st.h.live.map (·.obj))
@@ -178,9 +230,11 @@ def run (s : Sexp) : String :=
       | _ => ([], xs)
     match n.asNat?, parseL preS, parseL bodyS with
     | some n, some pre, some body =>
-      -- F-C20-1 (expression table leak) is repaired: no open finding has a trigger here
-      let trig := joinTrig []
-      s!"model={obs Quirks.asIs n pre body}\tspec={specObs}\ttrig={trig}"
+      -- F-C20-1 (expression table leak) is repaired. F-C20-3 (open): a rule query whose SELECTED variable is inferred
+      -- pins what it ranged over; trigger = the history contains such a query
+      let ruleSel := (pre ++ body).any (fun op => match op with | .ruleq _ _ true => true | _ => false)
+      let trig := joinTrig [(ruleSel, "F-C20-3")]
+      s!"model={obs Quirks.asIs n pre body true}\tmodel_fixed={obs Quirks.asIs n pre body false}\tspec={specObs}\ttrig={trig}"
     | _, _, _ => "error=bad-case"
   | _ => "error=bad-case"
 end KrroodVerif.Drive.C20
